@@ -11,6 +11,15 @@ import itertools
 import numpy as np
 
 
+def sym_pinv(A, cut=1e-10):
+    """Pseudo-inverse of a symmetric matrix with an explicit relative eigenvalue cut. numpy's default cut (1e-15) sits at
+    the round-off level of the zero mode of a rate matrix: it was seen to invert the null eigenvalue (entries ~1e12)."""
+    w, v = np.linalg.eigh(0.5 * (A + A.T))
+    lim = cut * max(np.abs(w).max(), 1e-300)
+    winv = np.array([0. if abs(x) < lim else 1. / x for x in w])
+    return (v * winv) @ v.T
+
+
 class Torus:
     def __init__(self, diff, L):
         self.d = diff
@@ -61,7 +70,7 @@ class Torus:
                 b = self.site(R + dR, j)
                 Om[a, b] += np.exp(-bFT0[jt] + 0.5 * (E[i] + E[j]))
                 Om[a, a] -= np.exp(-bFT0[jt] + E[i])
-        self.g0 = np.linalg.pinv(Om, hermitian=True)
+        self.g0 = sym_pinv(Om)
         return self.g0
 
     def g(self, i, j, dx):
@@ -150,7 +159,7 @@ class Torus:
                 D0['vv'] += 0.5 * w * np.outer(dxv, dxv)
         asym = np.abs(Q - Q.T).max() / max(np.abs(Q).max(), 1e-300)
         if asym > 1e-9: raise ValueError('chain rate matrix not symmetric (%g): classification inconsistent' % asym)
-        Qp = np.linalg.pinv(0.5 * (Q + Q.T), hermitian=True)
+        Qp = sym_pinv(Q)
         num = {'ss': D0['ss'] + bS.T @ Qp @ bS, 'sv': D0['sv'] + bS.T @ Qp @ bV, 'vv': D0['vv'] + bV.T @ Qp @ bV}
         self.used1, self.used2, self.nstates = used1, used2, ns
         self.Q, self.bS, self.bV, self.states, self.sidx, self.E, self.Qp = Q, bS, bV, states, sidx, E, Qp
@@ -169,7 +178,7 @@ class Torus:
             Q[i, i] -= rate
             b[i] += np.exp(-0.5 * E[i]) * rate * dx
             c[i] += 0.5 * np.exp(-bFT0[jt]) * np.outer(dx, dx)
-        eta = np.linalg.pinv(Q, hermitian=True) @ b
+        eta = sym_pinv(Q) @ b
         for i in range(N):
             c[i] += 0.5 * (np.outer(b[i], eta[i]) + np.outer(eta[i], b[i]))
         return c, eta
